@@ -302,6 +302,78 @@ def close_streams():
 def norm_params(ps):
     return sorted(p.split(".")[-1] for p in (ps or []))
 
+def _init_sig(text):
+    """(sorted parameter types without qualifier, result list) of `func Init(`"""
+    m = re.search(r"^func Init\((.*?)\) (.*?) \{$", text or "", re.M)
+    if not m:
+        return None
+    def strip(t):
+        t = t.strip()
+        t = t.split(" ")[-1] if " " in t else t
+        return re.sub(r"\b\w+\.", "", t)
+    ps = [strip(p) for p in m.group(1).split(",") if p.strip()]
+    return sorted(p for p in ps if p != "Context"), re.sub(r"\b\w+\.", "", m.group(2))
+
+def import_stream(tier, seed, repo_dir):
+    from . import wiregen14 as W14
+    tools = C.ensure_tools()
+    wire = build_wire(tools)
+    cli = os.path.join(repo_dir, "kessoku")
+    ws = Workspace("imp%d" % seed)
+    rng = G.SplitMix64(seed * 31 + 9)
+    n = 16 if tier == "quick" else 160
+    cases = []
+    try:
+        for k in range(n):
+            case = W14.gen_case(rng)
+            files = {}
+            for pkg in ("wi%d" % k, "ki%d" % k):
+                f, meta = W14.render(case, "ci%d" % k, pkg)
+                files.update(f)
+            _write_files(ws.root, files)
+            uses = meta["uses"]
+            fo = [u for u in uses if u["kind"] == "fieldsof"]
+            cases.append(dict(k=k, case=case, meta=meta, files={r: t for r, t in files.items() if not r.startswith("ki")}, desc=W14.describe(case),
+                              twofo=bool(case.get("shared") and len(set((u["file"]) for u in fo)) < len(fo))))
+        from concurrent.futures import ThreadPoolExecutor
+        def one(c):
+            k = c["k"]
+            rc, out = C.run([wire, "gen", "./wi%d" % k], cwd=ws.root, extra_env=ws.env(), timeout=300)
+            c["wire_rc"], c["wire_out"] = rc, out[-800:]
+            if rc != 0:
+                return c
+            wg = os.path.join(ws.root, "wi%d" % k, "wire_gen.go")
+            c["wire_sig"] = _init_sig(open(wg).read() if os.path.exists(wg) else "")
+            outp = os.path.join(ws.root, "ki%d" % k, "kessoku.go")
+            rc, out = C.run([cli, "migrate", "-o", outp, "./ki%d" % k], cwd=ws.root, extra_env=ws.env(), timeout=300)
+            c["mig_rc"], c["mig_out"] = rc, out[-800:]
+            c["gen_rc"] = None
+            if rc == 0 and os.path.exists(outp):
+                c["migrated"] = open(outp).read()
+                for fn in c["meta"]["wire_files"]:
+                    os.remove(os.path.join(ws.root, "ki%d" % k, fn))
+                rc, out = C.run([cli, "ki%d/kessoku.go" % k], cwd=ws.root, extra_env=ws.env(), timeout=300)
+                c["gen_rc"], c["gen_out"] = rc, out[-800:]
+                band = os.path.join(ws.root, "ki%d" % k, "kessoku_band.go")
+                c["k_sig"] = _init_sig(open(band).read() if os.path.exists(band) else "")
+            elif rc == 0:
+                c["mig_rc"], c["mig_out"] = 1, "exit 0 but no output file"
+            return c
+        with ThreadPoolExecutor(8) as ex:
+            cases = list(ex.map(one, cases))
+        good = [c for c in cases if c["wire_rc"] == 0 and c.get("gen_rc") == 0]
+        if good:
+            rc, out = C.run(["go", "build", "-gcflags=-e"] + ["./ki%d/" % c["k"] for c in good], cwd=ws.root, extra_env=ws.env(), timeout=1200)
+            for l in out.splitlines():
+                m = re.match(r"^(?:\./)?ki(\d+)/[\w.]+:\d+:\d+: (.*)", l.strip())
+                if m:
+                    for c in good:
+                        if c["k"] == int(m.group(1)) and not c.get("build_err"):
+                            c["build_err"] = m.group(2)
+    finally:
+        ws.close()
+    return dict(cases=cases)
+
 def check_c13(tier, seed):
     R = C.Result("C13", tier, seed)
     repo_dir = C.ensure_repo_build()
@@ -371,6 +443,27 @@ def check_c13(tier, seed):
                     if second:
                         diffs.insert(0, "second injector Init2 (sub-graph below node %d)" % r["cfg"]["second"])
                     finding(r, "behaviour-differs", "; ".join(diffs), {"spec": sp, "wire": w, "kessoku": k})
+        # ---- import-heavy configurations (external packages sharing package and type names, 1-3 merged files):
+        # the injector generated from the migrated file must take exactly the arguments wire's injector takes
+        imp = import_stream(tier, seed, repo_dir)
+        for c in imp["cases"]:
+            if c["wire_rc"] != 0:
+                continue
+            rp = {"kind": "input", "failing_input": {"case": c["desc"], "sources": c["files"]}, "migrated": c.get("migrated"),
+                  "wire_signature": c.get("wire_sig"), "kessoku_signature": c.get("k_sig"),
+                  "reproduce": "write the sources into a module, run `wire gen`, then `kessoku migrate` + `kessoku kessoku.go` on a copy; compare the two Init functions"}
+            if c["mig_rc"] != 0:
+                R.violation("wire accepts the configuration but kessoku migrate refuses it: %s  [%s]" % ((c["mig_out"].strip().splitlines() or ["?"])[-1][:200], c["desc"]), rp)
+            elif c["gen_rc"] != 0:
+                R.violation("the migrated file is refused by the generator: %s  [%s]" % ((c["gen_out"].strip().splitlines() or ["?"])[-1][:200], c["desc"]), rp)
+            elif c.get("build_err"):
+                R.violation("the injector generated from the migrated file does not compile: %s  [%s]" % (c["build_err"][:300], c["desc"]), rp)
+            elif c["wire_sig"] != c["k_sig"]:
+                R.violation("the migrated injector's signature is (%s) -> %s, wire's is (%s) -> %s  [%s]" % (
+                    ", ".join(c["k_sig"][0]), c["k_sig"][1], ", ".join(c["wire_sig"][0]), c["wire_sig"][1], c["desc"]), rp)
+        R.coverage["import_stream_wire_rejections"] = sorted(set((c["wire_out"].strip().splitlines() or ["?"])[0][-160:] for c in imp["cases"] if c["wire_rc"] != 0))[:6]
+        R.coverage["import_stream"] = {"cases": len(imp["cases"]), "accepted_by_wire": sum(1 for c in imp["cases"] if c["wire_rc"] == 0),
+                                       "two_fieldsof_same_type_name": sum(1 for c in imp["cases"] if c["twofo"])}
         # ---- correspondence: the Lean model of wire / migrate / kessoku predicts, per configuration, whether the
         # migration is refused and whether the two injectors compute the same term
         prepare(repo_dir)
